@@ -33,7 +33,9 @@ func MakeBitMasks(instruction []byte, bitmaskData []byte) (Bitmask, ExitReason) 
 		if bitmaskData[i/8]&(1<<(i%8)) > 0 {
 			bitmask[i] = 0x01
 
-			if i == 0 || IsBlockTerminator(instruction[prev]) {
+			// a basic block starts at an instruction that holds a valid opcode and is the first one or
+			// follows a terminator (A.5): an invalid opcode after a terminator is no jump target
+			if (i == 0 || IsBlockTerminator(instruction[prev])) && IsValidOpcode(instruction[i]) {
 				bitmask[i] |= 0x02
 			}
 
